@@ -75,6 +75,36 @@ def endings():
     return out
 
 
+def def_forms():
+    """\\def with delimited parameter texts and bodies that refer to parameters
+    inside and outside the declared range, each followed by a use"""
+    params = ['', '#1', '[#1]', '(#1,#2)', '#1#2', '#1.#2', 'a#1b', '#2', '#1#3', '##',
+              '#', '[#1]#2', '#1[#2]', '#9', '[]']
+    bodies = ['#1', '#2', '#3', '#4', '#9', '#0', '##', 'x#1y#2', '', '#1#2#4', '{#2}']
+    uses = [' \\x', '\\x[a]', '\\x(a,b)', '\\x ab', '\\x{a}{b}', '']
+    return ['\\def\\x%s{%s}%s' % (p, b, u) for p in params for b in bodies for u in uses]
+
+
+MODNAMES = ['.', '..', '..x', '.x', 'a..b', '', ' ', '1', 'class', 'None', 'é', 'a-b', 'a.b',
+            '**', ',', ',,', 'a,', '.,.', 'os', 'sys', '__init__', 'x/y', '~', 'amsmath.',
+            '.amsmath', 'amsmath,.', '..article', 'article.', 'import', 'a b']
+
+
+def module_names():
+    """package and class names that are no Python module names, in the
+    document and as option values"""
+    out = []
+    for n in MODNAMES:
+        for t in ('\\usepackage{%s} A', '\\documentclass{%s} A', '\\usepackage[x]{%s} A',
+                  '\\usepackage{amsmath,%s} A'):
+            out.append((t % n, {}))
+        out.append(('\\usepackage%s A' % n[:1], {}))
+        out.append(('A', {'pack': n}))
+        out.append(('A', {'dcls': n}))
+        out.append(('A', {'pack': 'amsmath,' + n}))
+    return out
+
+
 def run(tier, seed, build, res):
     rng = random.Random(seed)
     res.rule = ('malformed stream: every prefix / deletion / insertion kind of '
@@ -107,6 +137,15 @@ def run(tier, seed, build, res):
     for latex in ends:
         cases.append((parsecase.T2T(latex, files=dict(universe.FILES), lang='en-GB',
                                     multi=rng.random() < 0.3), None, 'ending'))
+    defs_ = def_forms()
+    if tier == 'quick':
+        defs_ = rng.sample(defs_, 250)
+    for latex in defs_:
+        cases.append((parsecase.T2T(latex, files=dict(universe.FILES), lang='en-GB'),
+                      None, 'def-form'))
+    for latex, o in module_names():
+        cases.append((parsecase.T2T(latex, files=dict(universe.FILES), lang='en-GB', **o),
+                      None, 'module-name'))
     for j in core.load_corpus('C07'):
         cases.append((parsecase.T2T.from_json(j), None, 'corpus'))
     for i in range(0, len(cases), 2000):
